@@ -30,7 +30,10 @@ def table_purity(ctx, rule="R-pure-table", cells=None, T=None):
             from .table import Table
             T = Table(ctx.repo)
         reach = _closure(T, cells)
-    for key in (GETATTR, CLS + ".get_measurement", CLS + ".to_dataframe", CLS + ".get_rms", CLS + ".__dir__", CLS + ".__len__", CLS + ".__repr__"):
+    # every method of the result class (plotting and export helpers included): none may modify a value that aliases a cached cell
+    cls_node = ctx.repo.get(CLS)
+    keys = [GETATTR] + [f"{CLS}.{n.name}" for n in cls_node.body if isinstance(n, ast.FunctionDef) and n.name not in ("__getattr__", "__init__")]
+    for key in keys:
         if not ctx.repo.has(key): continue
         fn = ctx.repo.get(key)
         ctx.analysed(key)
